@@ -208,7 +208,8 @@ def rewrite(rng, root, kinds=None, p_site=0.5):
                                    # editor mode lines are comments too
                                    "# -*- coding: latin-1 -*-",
                                    "# vim: set fileencoding=cp1252 :",
-                                   "#!coding=utf-16"]))
+                                   "#!coding=utf-16",
+                                   "# end\x1a", "#\x1a", "\x1a# x"[1:]]))
         if "trailing" in kinds and rng.random() < p_site:
             # "\r" makes the line end CRLF; the others are whitespace too
             body += rng.choice([" ", "\t", "  \t ", "\r", " \r", "\x0c",
